@@ -35,7 +35,7 @@ func checkC20(ctx *Ctx) {
 		return
 	}
 	quietLogs()
-	n := ctx.N(800, 8000)
+	n := ctx.N(2400, 12000)
 	gens := allGens()
 	u := allUniverse()
 	u.Keys = []string{"a", "b", "c", "d"}
@@ -48,7 +48,7 @@ func checkC20(ctx *Ctx) {
 		ctx.SetCurrent(fmt.Sprintf("C20 history %d seed %d", i, ctx.Seed))
 		c20History(ctx, i, gens, u)
 	}
-	for i := 0; i < ctx.N(8, 64); i++ {
+	for i := 0; i < ctx.N(24, 96); i++ {
 		if ctx.Mine(i) {
 			c20Persistence(ctx, i)
 		}
